@@ -939,3 +939,39 @@ def wa_forward(ctx):
                           'without the with_altitude argument' if got is None
                           else 'with with_altitude=%s' % norm_text(got)))
     ctx.floor('WA-FORWARD', n, 4, 'forwarding sites')
+
+
+def kernel_via(ctx):
+    """Every result of the two public entry points comes out of the one kernel path: a shortcut
+    return (a 'nothing to do' fast path that hands back the stored row, an approximation for
+    short steps) is a second implementation of the step that the structural rules do not see
+    and that cannot be bit-identical to what integrate appends for the same increment."""
+    ctx.rule('KERNEL-VIA', "Integrator.integrate returns self._integrate(increments, 'integrate') and "
+             "Integrator.predict the single row of self._integrate(<one-row frame of the "
+             "increment>, 'predict') on every path: no return bypasses the kernel")
+    c = ctx.repo.klass('strapdown.Integrator')
+    n = 0
+    for mname, mode in (('integrate', 'integrate'), ('predict', 'predict')):
+        m = c.methods.get(mname)
+        ctx.need(m is not None, 'Integrator.%s missing' % mname)
+        ctx.touch(m)
+        clo = Closure(m)
+        rets = [s for s in ast.walk(m.node) if isinstance(s, ast.Return)]
+        ctx.need(rets, 'Integrator.%s has no return' % mname)
+        for r in rets:
+            v = r.value
+            e = clo.expr(v, r, depth=3) if v is not None else None
+            calls = [x for x in ast.walk(e) if isinstance(x, ast.Call) and
+                     norm_text(x.func) == 'self._integrate'] if e is not None else []
+            ok = len(calls) == 1 and len(calls[0].args) >= 2 and \
+                isinstance(calls[0].args[1], ast.Constant) and calls[0].args[1].value == mode
+            n += 1
+            ctx.ob('KERNEL-VIA', ok, None, '%s returns the result of _integrate(..., %r)'
+                   % (mname, mode), f=m, node=r, key='%s-%d' % (mname, rets.index(r)),
+                   why='Integrator.%s has a return `%s` that does not come from '
+                       "self._integrate(..., '%s'): a path that bypasses the kernel returns something "
+                       'else than the row integrate appends for the same increment (e.g. the '
+                       'stored angles instead of the ones read back from the attitude matrix, or '
+                       'the state without the increment applied)'
+                       % (mname, norm_text(v)[:70] if v is not None else 'None', mode))
+    ctx.floor('KERNEL-VIA', n, 2, 'returns of the public entry points')
